@@ -6,6 +6,7 @@ package interp
 import (
 	"fmt"
 	"go/types"
+	"strings"
 
 	"verif/engine/sym"
 )
@@ -28,6 +29,7 @@ func init() {
 		"vAssume":        hAssume,
 		"vAssert":        hAssert,
 		"vKnown":         hKnown,
+		"vKnownFor":      hKnown,
 		"vReach":         hReach,
 		"vObserve":       func(fr *frame, a []value) value { return nil },
 		"vSymbolic":      func(fr *frame, a []value) value { return true },
@@ -152,7 +154,15 @@ func hKnown(fr *frame, a []value) value {
 	if af := st.w.eng.Opts.ActiveFindings; af != nil && !af[id] {
 		return nil // not listed (or listed as fixed): suppresses nothing
 	}
-	st.regions = append(st.regions, region{id: id, t: t})
+	rg := region{id: id, t: t}
+	if len(a) > 2 {
+		for _, s := range strings.Split(concStr(fr, a[2]), ",") {
+			if s = strings.TrimSpace(s); s != "" {
+				rg.scope = append(rg.scope, s)
+			}
+		}
+	}
+	st.regions = append(st.regions, rg)
 	return nil
 }
 
